@@ -220,63 +220,81 @@ def mk_filter(op):
     return f
 
 
-def via_env(op, items, mode):
-    """the same through the public Environments API (option handling included)"""
-    from coba.environments import Environments
+def _list_env_class():
     from coba.primitives import Environment
 
     class ListEnv(Environment):
-        def __init__(self, its):
-            self._its = its
+        def __init__(self, its, mode, idx):
+            self._its, self._mode, self.idx = its, mode, idx
 
         @property
         def params(self):
-            return {}
+            return {"env": self.idx}
 
         def read(self):
-            return give(self._its, mode)
+            return give(self._its, self._mode)
+    return ListEnv
 
-    e = Environments(ListEnv(items))
+
+def apply_method(e, op):
+    """Environments.<shortcut method>(...) for an op description"""
     n = op["name"]
     if n == "eshuffle":
         sd = mk_seed(op["seed"])
         how = op.get("how", 0)
-        e = e.shuffle(sd) if how == 0 else e.shuffle(seed=sd) if how == 1 else e.shuffle([sd]) if how == 2 else e.shuffle(seeds=[sd])
-    elif n == "take":
-        e = e.take(op["count"], op["strict"]) if "strict" in op else e.take(op["count"])
-    elif n == "slice":
-        e = e.slice(op["start"], op["stop"]) if op.get("step") is None else e.slice(op["start"], op["stop"], op["step"])
-    elif n == "reservoir":
+        return e.shuffle(sd) if how == 0 else e.shuffle(seed=sd) if how == 1 else e.shuffle([sd]) if how == 2 else e.shuffle(seeds=[sd])
+    if n == "take":
+        return e.take(op["count"], op["strict"]) if "strict" in op else e.take(op["count"])
+    if n == "slice":
+        return e.slice(op["start"], op["stop"]) if op.get("step") is None else e.slice(op["start"], op["stop"], op["step"])
+    if n == "reservoir":
         sd = mk_seed(op["seed"])
-        e = e.reservoir(op["count"], sd if op.get("how", 0) == 0 and isinstance(sd, int) else [sd], strict=op["strict"])
-    elif n == "sort":
-        e = e.sort(*op["keys"]) if not op.get("nested") else e.sort(list(op["keys"]))
-    elif n == "where":
-        e = e.where(**{k: dec_range(op[k]) for k in ("n_interactions", "n_actions", "n_features") if k in op})
-    elif n == "riffle":
-        e = e.riffle(op["spacing"], mk_seed(op["seed"]))
-    elif n == "chunk":
-        e = e.chunk(cache=False)
-    elif n == "params":
-        e = e.params({"a": 1})
-    elif n == "cache":
-        e = e.cache()
-    elif n == "batch":
-        e = e.batch(op["size"]).unbatch()
-    else:
-        raise ValueError(n)
-    pipes = getattr(e, "_envs")
-    if len(pipes) != 1:
-        raise RuntimeError("Environments produced %d pipelines for one filter" % len(pipes))
-    pipe = pipes[0]
-    # Environments.shuffle() sorts its pipelines, which appends BatchSafe(Finalize()); Finalize rewrites interactions on
-    # purpose (not a C09 filter), so it is taken off again
+        return e.reservoir(op["count"], sd if op.get("how", 0) == 0 and isinstance(sd, int) else [sd], strict=op["strict"])
+    if n == "sort":
+        return e.sort(*op["keys"]) if not op.get("nested") else e.sort(list(op["keys"]))
+    if n == "where":
+        return e.where(**{k: dec_range(op[k]) for k in ("n_interactions", "n_actions", "n_features") if k in op})
+    if n == "riffle":
+        return e.riffle(op["spacing"], mk_seed(op["seed"]))
+    if n == "chunk":
+        return e.chunk(cache=bool(op.get("cache", False))) if "cache" in op or not op.get("default") else e.chunk()
+    if n == "params":
+        return e.params({"a": 1})
+    if n == "cache":
+        return e.cache()
+    if n == "batch":
+        return e.batch(op["size"]).unbatch()
+    if n == "identity":
+        from coba.environments.filters import Identity
+        return e.filter(Identity())
+    raise ValueError(n)
+
+
+def via_envs(op, item_lists, mode):
+    """Environments(env_0, env_1, ...).<method>() -> [(index of the source environment, its pipeline)]"""
+    from coba.environments import Environments
     from coba.environments.filters import BatchSafe, Finalize
     from coba.pipes import Pipes
-    parts = list(pipe)
-    if isinstance(parts[-1], BatchSafe) and isinstance(getattr(parts[-1], "_filter", None), Finalize):
-        pipe = Pipes.join(*parts[:-1])
-    return pipe
+    cls = _list_env_class()
+    srcs = [cls(its, mode, k) for k, its in enumerate(item_lists)]
+    e = apply_method(Environments(srcs) if len(srcs) > 1 else Environments(srcs[0]), op)
+    out = []
+    for pos, pipe in enumerate(getattr(e, "_envs")):
+        parts = list(pipe)
+        # Environments.shuffle() sorts its pipelines, which appends BatchSafe(Finalize()); Finalize rewrites interactions on
+        # purpose (not a C09 filter), so it is taken off again
+        if isinstance(parts[-1], BatchSafe) and isinstance(getattr(parts[-1], "_filter", None), Finalize):
+            pipe = Pipes.join(*parts[:-1])
+        out.append((getattr(parts[0], "idx", pos), pipe))
+    return out
+
+
+def via_env(op, items, mode):
+    """the same through the public Environments API (option handling included)"""
+    pipes = via_envs(op, [items], mode)
+    if len(pipes) != 1:
+        raise RuntimeError("Environments produced %d pipelines for one filter" % len(pipes))
+    return pipes[0][1]
 
 
 ENV_OPS = ("eshuffle", "take", "slice", "reservoir", "sort", "where", "riffle", "chunk", "params", "batch")
@@ -313,7 +331,7 @@ class Run:
         for o in out:
             i = o.get("id") if isinstance(o, dict) else None
             if isinstance(i, bool) or not isinstance(i, int) or i not in self.pristine:
-                ids.append("?")
+                ids.append("?" if i is None or isinstance(i, (list, dict)) else "?%s" % (i,))
                 bad.append("an output interaction carries no input id: %r" % (repr(o)[:100],))
                 continue
             ids.append(i)
@@ -551,7 +569,53 @@ class C09(Property):
             out["list"] = True
         return out
 
+    MULTI_OPS = ("eshuffle", "take", "slice", "reservoir", "sort", "where", "riffle", "batch", "cache", "chunk", "params", "identity")
+
     def generate(self, rng, tier, boundary=False):
+        if rng.chance(0.12):
+            return self.generate_multi(rng, tier, boundary)
+        return self.generate_single(rng, tier, boundary)
+
+    def generate_multi(self, rng, tier, boundary=False):
+        """2-3 different environments (a split of one generated sequence: distinct ids, different lengths, possibly empty)
+        behind Environments(...).<method>(), read in a PRNG-chosen order, some reads abandoned, environments re-read"""
+        for _ in range(50):
+            base = self.generate_single(rng, tier, boundary)
+            if base["op"]["name"] in self.MULTI_OPS and not base.get("malformed"):
+                break
+        items, op = base["items"], dict(base["op"])
+        r = rng.below(100)
+        if r < 22 or op["name"] == "cache":
+            op = {"name": "cache"}
+        elif r < 40:
+            op = rng.choice([{"name": "chunk", "default": True}, {"name": "chunk", "cache": True}, {"name": "chunk", "cache": False}])
+        elif r < 45:
+            op = {"name": rng.choice(["params", "identity"])}
+        for k in ("pipes",):
+            op.pop(k, None)
+        ne = rng.choice([2, 2, 3])
+        n = len(items)
+        cuts = sorted(rng.randint(0, n) for _ in range(ne - 1))
+        if n >= ne and rng.chance(0.7):           # mostly non-empty environments of different lengths
+            cuts = sorted(rng.sample(list(range(1, n)), ne - 1)) if n > ne - 1 else cuts
+        bounds = [0] + cuts + [n]
+        envs = [items[bounds[i]:bounds[i + 1]] for i in range(ne)]
+        j = rng.below(ne)
+        if op["name"] in ("take", "reservoir") and rng.chance(0.5):
+            op["count"] = self.gen_count(rng, len(envs[j]))
+            if op["name"] == "reservoir" and op["count"] is None and rng.chance(0.5):
+                op["count"] = len(envs[j])
+        if op["name"] == "where" and "n_interactions" in op and rng.chance(0.7):
+            op["n_interactions"] = self.gen_range(rng, len(envs[j]))
+        order = []
+        for _ in range(rng.randint(2, 7)):
+            k = rng.below(ne)
+            order.append([k, None if rng.chance(0.7) else rng.randint(0, len(envs[k]) + 1)])
+        if rng.chance(0.5):                        # start with an environment other than the first
+            order.insert(0, [rng.randint(1, ne - 1), None])
+        return {"kind": base["kind"], "envs": envs, "op": {"name": "multi", "method": op}, "order": order, "input": base.get("input", "list")}
+
+    def generate_single(self, rng, tier, boundary=False):
         n = rng.choice([0, 1, 2, 3, 4, 5, 6, 8, 10, 13, 20, 40]) if not boundary else rng.choice([0, 1, 2, 3, 4, 5, 7])
         opn = rng.wchoice([(7, "pshuffle"), (14, "eshuffle"), (11, "take"), (13, "slice"), (17, "reservoir"), (13, "sort"),
                            (15, "where"), (9, "riffle"), (9, "batch"), (6, "cache"), (3, "idle")])
@@ -703,6 +767,18 @@ class C09(Property):
         for k in (None, 0, 1, 2, 5, 6):
             cs.append({"kind": "log", "items": log(5), "op": {"name": "batch", "size": k}, "input": "list"})
         cs.append({"kind": "sim", "items": sim(7), "op": {"name": "cache", "nslice": 2, "reads": [3, 0, None, 2, None]}, "input": "gen"})
+        # collections of environments behind the Environments shortcut methods, read out of order and repeatedly
+        def env(lo, n):
+            return [{"id": lo + i, "ctx": {"l": [i % 3, "a"]}, "actions": [1, 2, 3], "rewards": [0, 1, 0]} for i in range(n)]
+        seed1 = {"kind": "int", "v": 1}
+        for m in ({"name": "cache"}, {"name": "chunk", "default": True}, {"name": "chunk", "cache": False}, {"name": "params"}, {"name": "identity"},
+                  {"name": "take", "count": 2, "strict": False}, {"name": "slice", "start": 1, "stop": None, "step": 2}, {"name": "eshuffle", "seed": seed1, "how": 0},
+                  {"name": "reservoir", "count": 3, "strict": False, "seed": seed1}, {"name": "sort", "keys": [0]}, {"name": "riffle", "spacing": 2, "seed": seed1},
+                  {"name": "where", "n_interactions": {"min": 1, "max": 5}}, {"name": "batch", "size": 2}):
+            cs.append({"kind": "sim", "envs": [env(0, 4), env(100, 6), env(200, 0)], "op": {"name": "multi", "method": m},
+                       "order": [[1, None], [0, None], [2, None], [1, 2], [0, None], [1, None]], "input": "list"})
+            cs.append({"kind": "sim", "envs": [env(0, 3), env(100, 5)], "op": {"name": "multi", "method": m},
+                       "order": [[1, 1], [0, 2], [1, None], [0, None], [1, None]], "input": "gen"})
         # witnesses of batch_unbatch_id_counterexample / 2 (key sets differ inside one sequence): correspondence only
         cs.append({"kind": "raw", "items": [{"id": 0, "raw": {"a": 1}}, {"id": 1, "raw": {"a": 2, "b": 3}}], "op": {"name": "batch", "size": 2}, "input": "list", "malformed": True})
         cs.append({"kind": "raw", "items": [{"id": 0, "raw": {"a": 1, "b": 3}}, {"id": 1, "raw": {"a": 2}}], "op": {"name": "batch", "size": 2}, "input": "list", "malformed": True})
@@ -733,6 +809,8 @@ class C09(Property):
 
     # ------------------------------------------------------------ evaluation
     def evaluate(self, case, driver):
+        if case["op"]["name"] == "multi":
+            return self.evaluate_multi(case, driver)
         fails, tags = [], []
         op = case["op"]
         name = op["name"]
@@ -824,10 +902,141 @@ class C09(Property):
                     bfail("abandoned-read sequence raised %s" % errname(e), name + "-abandoned-read-raises")
 
         # ---- (B) the promised sequence
-        exp_ids = None
-        if malformed:
-            pass
-        elif "err" in o1:
+        if not malformed:
+            self.promise(case, o1, bfail, tags)
+
+        # ---- BatchSafe(F) on batched input = F on the plain input (differential, correspondence level)
+        if case.get("batchsafe") and "err" not in o1 and not fails and name not in ("cache", "batch"):
+            try:
+                from coba.environments import filters as EF
+                bs = EF.BatchSafe(mk_filter(op))
+                got = R.describe(list(EF.Unbatch().filter(bs.filter(EF.Batch(case["batchsafe"]).filter(give(R.items, "iter"))))))
+                tags.append("batchsafe")
+                if got["ids"] != o1["ids"] or got["bad"]:
+                    fails.append(F("A", "%s: BatchSafe(filter) on batches of %d gave %s %s, the filter alone %s" % (what, case["batchsafe"], got["ids"], got["bad"][:1], o1["ids"]), "A:batchsafe"))
+            except Exception as e:  # noqa: BLE001
+                fails.append(F("A", "%s: BatchSafe(filter) on batches of %d raised %s" % (what, case["batchsafe"], errname(e)), "A:batchsafe"))
+
+        # ---- (A) correspondence with the Lean model, (C) model = spec
+        model = None
+        if driver is not None and not any(f["kind"] == "B" for f in fails):
+            model = self.ask_model(case, driver)
+            if model is not None:
+                mo = {"err": model["err"]} if "err" in model else {"ids": model["out"]}
+                if not same(mo, o1):
+                    fails.append(F("A", "%s: implementation %s, model %s" % (what, o1.get("ids", o1.get("err")), mo.get("ids", mo.get("err"))), "A:" + name))
+                if "spec" in model and model.get("out") != model["spec"]:
+                    fails.append(F("C", "%s: model %s but spec %s" % (what, model.get("out"), model["spec"]), "C:" + name))
+                if name == "batch" and "batches" in model:
+                    d = self.check_batches(case, R, model)
+                    if d:
+                        fails.append(F("A", "%s: %s" % (what, d), "A:batch-structure"))
+        nontrivial = n >= 2 and name not in ("identity", "chunk", "params") and not malformed
+        return {"fails": fails, "nontrivial": nontrivial, "tags": tags, "impl": impl, "model": model}
+
+    # ------------------------------------------------------------ a collection of environments
+    def sub_case(self, case, k):
+        return {"kind": case["kind"], "items": case["envs"][k], "op": case["op"]["method"], "input": case.get("input", "list")}
+
+    def evaluate_multi(self, case, driver):
+        """Environments(env_0, env_1, ...).<method>(): every environment of the collection, read in the given order
+        (complete reads and abandoned ones), must deliver what ITS OWN filter promises for ITS OWN interactions."""
+        fails, tags = [], []
+        inner = case["op"]["method"]
+        name = inner["name"]
+        envs = case["envs"]
+        mode = case.get("input", "list")
+        subs = [self.sub_case(case, k) for k in range(len(envs))]
+        runs = [Run(sc) for sc in subs]
+        tags += ["op:multi", "multi:" + name, "multi:envs=%d" % len(envs), "kind:" + case["kind"], "input:" + mode]
+        what = "Environments(%s).%s" % (", ".join("env%d[%d]" % (k, len(e)) for k, e in enumerate(envs)), json.dumps(inner))
+
+        def bfail_for(k, label):
+            def bfail(msg, sig):
+                fails.append(F("B", "%s: environment #%d (ids %s), %s: %s" % (what, k, [it["id"] for it in envs[k]][:8], label, msg), "multi-" + sig))
+            return bfail
+
+        impl = {"reads": []}
+        try:
+            pipes = via_envs(inner, [r.items for r in runs], mode)
+        except Exception as e:  # noqa: BLE001
+            fails.append(F("B", "%s raised %s (%s) while building the pipelines" % (what, errname(e), str(e)[:100]), "multi-%s-method-raises-%s" % (name, errname(e))))
+            return {"fails": fails, "nontrivial": False, "tags": tags, "impl": impl, "model": None}
+        by_env = {}
+        for idx, pipe in pipes:
+            by_env.setdefault(idx, []).append(pipe)
+        if len(pipes) != len(envs) or sorted(by_env) != list(range(len(envs))):
+            fails.append(F("B", "%s produced %d pipelines over source environments %s for %d environments and one filter"
+                           % (what, len(pipes), sorted(by_env), len(envs)), "multi-%s-pipeline-count" % name))
+            return {"fails": fails, "nontrivial": False, "tags": tags, "impl": impl, "model": None}
+        full = {}       # env -> first complete read
+        alive = []
+        order = list(case["order"]) + [[k, None] for k in range(len(envs))]     # a final complete read of every environment
+        for step, (k, c) in enumerate(order):
+            R, pipe = runs[k], by_env[k][0]
+            label = "read #%d (%s)" % (step, "complete" if c is None else "abandoned after %d" % c)
+            try:
+                g = iter(pipe.read())
+                if c is None:
+                    o = R.describe(list(g))
+                else:
+                    o = R.describe(list(itertools.islice(g, c)))
+                    alive.append(g)
+            except Exception as e:  # noqa: BLE001
+                o = {"err": errname(e), "msg": str(e)[:120]}
+            impl["reads"].append([k, c, o.get("ids", o.get("err"))])
+            tags.append("multi:read-" + ("full" if c is None else "partial"))
+            bfail = bfail_for(k, label)
+            if c is None:
+                self.promise(subs[k], o, bfail, [])
+                if k not in full:
+                    full[k] = o
+                elif not same(full[k], o):
+                    bfail("delivered %s, an earlier complete read of the same environment %s" % (o.get("ids", o.get("err")), full[k].get("ids", full[k].get("err"))), name + "-reread-differs")
+            else:
+                if "err" in o:
+                    bfail("raised %s (%s)" % (o["err"], o.get("msg", "")), "%s-raises-%s" % (name, o["err"]))
+                elif o["bad"]:
+                    bfail(o["bad"][0], name + "-content-altered")
+                elif k in full and "ids" in full[k] and o["ids"] != full[k]["ids"][:c]:
+                    bfail("delivered %s, a complete read of the same environment starts with %s" % (o["ids"], full[k]["ids"][:c]), name + "-partial-read-differs")
+                else:
+                    own = set(R.ids)
+                    if any(i not in own for i in o["ids"]):
+                        bfail("delivered ids %s which are not interactions of this environment" % (o["ids"],), name + "-foreign-interactions")
+        # partial reads made before the first complete read of their environment
+        seen_full = set()
+        for (k, c), rec in zip(order, impl["reads"]):
+            if c is None:
+                seen_full.add(k)
+            elif k not in seen_full and isinstance(rec[2], list) and "ids" in full.get(k, {}) and rec[2] != full[k]["ids"][:c]:
+                bfail_for(k, "abandoned read")("delivered %s, the later complete read of the same environment starts with %s" % (rec[2], full[k]["ids"][:c]), name + "-partial-read-differs")
+        # (A) every environment against the model of its own filter
+        model = None
+        if driver is not None and not fails:
+            model = []
+            for k in range(len(envs)):
+                sc = dict(subs[k])
+                if name == "cache":
+                    sc["op"] = {"name": "identity"}
+                m = self.ask_model(sc, driver)
+                if m is None:
+                    continue
+                mo = {"err": m["err"]} if "err" in m else {"ids": m["out"]}
+                model.append(mo)
+                if not same(mo, full[k]):
+                    fails.append(F("A", "%s: environment #%d delivers %s, the model of its filter %s" % (what, k, full[k].get("ids", full[k].get("err")), mo.get("ids", mo.get("err"))), "A:multi-" + name))
+        nontrivial = sum(1 for e in envs if len(e) >= 1) >= 2
+        return {"fails": fails, "nontrivial": nontrivial, "tags": tags, "impl": impl, "model": model}
+
+    def promise(self, case, o1, bfail, tags):
+        """(B): is `o1` (what one complete read delivered) the sequence this filter promises for this input?"""
+        op = case["op"]
+        name = op["name"]
+        items = case["items"]
+        n = len(items)
+        ids = [it["id"] for it in items]
+        if "err" in o1:
             sig = "%s-raises-%s" % (name, o1["err"])
             if name == "take" and op.get("count") is None and op.get("strict"):
                 sig = "take-none-strict-raises"
@@ -890,41 +1099,12 @@ class C09(Property):
                     elif case["kind"] != "bare" and items and isinstance(dec_ctx(items[0].get("ctx")), str) and "n_features" in op and op["n_features"] is not None:
                         sig = "where-string-context-feature-count"
                     bfail("delivered ids %s, promised %s (interaction count %d, feature count %d)" % (out, exp_ids, n, fc), sig)
-            else:   # identity, chunk, params, batch+unbatch
+            else:   # identity, chunk, params, cache, batch+unbatch
                 exp_ids = list(ids)
                 if name == "batch":
                     tags.append("batch:" + ("none" if not op["size"] else "1" if op["size"] == 1 else "<len" if op["size"] < n else ">=len"))
                 if out != exp_ids:
                     bfail("delivered ids %s, the input was %s" % (out, ids), name + "-not-identity")
-
-        # ---- BatchSafe(F) on batched input = F on the plain input (differential, correspondence level)
-        if case.get("batchsafe") and "err" not in o1 and not fails and name not in ("cache", "batch"):
-            try:
-                from coba.environments import filters as EF
-                bs = EF.BatchSafe(mk_filter(op))
-                got = R.describe(list(EF.Unbatch().filter(bs.filter(EF.Batch(case["batchsafe"]).filter(give(R.items, "iter"))))))
-                tags.append("batchsafe")
-                if got["ids"] != o1["ids"] or got["bad"]:
-                    fails.append(F("A", "%s: BatchSafe(filter) on batches of %d gave %s %s, the filter alone %s" % (what, case["batchsafe"], got["ids"], got["bad"][:1], o1["ids"]), "A:batchsafe"))
-            except Exception as e:  # noqa: BLE001
-                fails.append(F("A", "%s: BatchSafe(filter) on batches of %d raised %s" % (what, case["batchsafe"], errname(e)), "A:batchsafe"))
-
-        # ---- (A) correspondence with the Lean model, (C) model = spec
-        model = None
-        if driver is not None and not any(f["kind"] == "B" for f in fails):
-            model = self.ask_model(case, driver)
-            if model is not None:
-                mo = {"err": model["err"]} if "err" in model else {"ids": model["out"]}
-                if not same(mo, o1):
-                    fails.append(F("A", "%s: implementation %s, model %s" % (what, o1.get("ids", o1.get("err")), mo.get("ids", mo.get("err"))), "A:" + name))
-                if "spec" in model and model.get("out") != model["spec"]:
-                    fails.append(F("C", "%s: model %s but spec %s" % (what, model.get("out"), model["spec"]), "C:" + name))
-                if name == "batch" and "batches" in model:
-                    d = self.check_batches(case, R, model)
-                    if d:
-                        fails.append(F("A", "%s: %s" % (what, d), "A:batch-structure"))
-        nontrivial = n >= 2 and name not in ("identity", "chunk", "params") and not malformed
-        return {"fails": fails, "nontrivial": nontrivial, "tags": tags, "impl": impl, "model": model}
 
     # ------------------------------------------------------------ helpers
     def state_after_shuffle(self, op, n):
@@ -1033,7 +1213,29 @@ class C09(Property):
         return None
 
     # ------------------------------------------------------------ shrinking / reproduction
+    def shrink_multi(self, case):
+        envs, order = case["envs"], case["order"]
+        for i in range(len(order)):
+            yield dict(case, order=order[:i] + order[i + 1:])
+        for i, (k, c) in enumerate(order):
+            if c is not None:
+                yield dict(case, order=order[:i] + [[k, None]] + order[i + 1:])
+        if len(envs) > 2:
+            for k in range(len(envs)):
+                no = [[j - (j > k), c] for j, c in order if j != k]
+                yield dict(case, envs=envs[:k] + envs[k + 1:], order=no)
+        for k, e in enumerate(envs):
+            if len(e) > 1:
+                yield dict(case, envs=envs[:k] + [e[:len(e) // 2]] + envs[k + 1:])
+            for i in range(len(e)):
+                yield dict(case, envs=envs[:k] + [e[:i] + e[i + 1:]] + envs[k + 1:])
+        if case.get("input", "list") != "list":
+            yield dict(case, input="list")
+
     def shrink(self, case):
+        if case["op"]["name"] == "multi":
+            yield from self.shrink_multi(case)
+            return
         items = case["items"]
         n = len(items)
         if n > 1:
@@ -1081,6 +1283,18 @@ class C09(Property):
                 "r = Run(case)\n"
                 "print('input ids  ', r.ids)\n"
                 % (os.environ.get("COBA_REPO", "/repo"), os.path.dirname(os.path.dirname(os.path.abspath(__file__))), json.dumps(case)))
+        if case["op"]["name"] == "multi":
+            return ("# plain reproduction against the coba checkout (no Lean, no engine)\n"
+                    "import sys, json, itertools; sys.path[:0] = [%r, %r]\n"
+                    "from props.c09 import Run, via_envs\n"
+                    "case = json.loads(%r)\n"
+                    "runs = [Run({'kind': case['kind'], 'items': e, 'op': case['op']['method'], 'input': case.get('input', 'list')}) for e in case['envs']]\n"
+                    "pipes = dict(via_envs(case['op']['method'], [r.items for r in runs], case.get('input', 'list')))   # Environments(env0, env1, ...).<method>()\n"
+                    "for k, r in enumerate(runs): print('environment', k, 'holds ids', r.ids)\n"
+                    "for k, c in case['order'] + [[k, None] for k in range(len(runs))]:\n"
+                    "    g = iter(pipes[k].read())\n"
+                    "    print('read environment', k, 'consuming', c, '->', runs[k].describe(list(g if c is None else itertools.islice(g, c))))\n"
+                    % (os.environ.get("COBA_REPO", "/repo"), os.path.dirname(os.path.dirname(os.path.abspath(__file__))), json.dumps(case)))
         if case["op"]["name"] == "cache":
             return head + ("from coba.environments.filters import Cache\n"
                            "c = Cache(case['op'].get('nslice', 25)); alive = []\n"
